@@ -366,3 +366,16 @@ Definition pump (max_events : nat) (use_peek : bool) (b : option budget) (per_do
   let '(evs, e, s) := pump_go max_events use_peek (live_new b per_document lim stop) items [] in
   let '(rep, fe) := match e with None => live_finish s | Some _ => (None, None) end in
   mkPump evs e fe rep (lv_seen_doc_end s) (lv_synth_null s).
+
+(* the pump: call next_impl until the stream ends or an error is returned; None = out of fuel *)
+Fixpoint drain (fuel : nat) (s : live) (rest : list raw_item) : option (nat * option err) :=
+  match fuel with
+  | O => None
+  | S f =>
+    match next_impl s rest with
+    | Yield _ s' r' => match drain f s' r' with Some (n, e) => Some (S n, e) | None => None end
+    | Eos _ _ => Some (O, None)
+    | Fail e _ _ => Some (O, Some e)
+    end
+  end.
+
